@@ -129,6 +129,8 @@ def worker_main(argv):
     mod = load_prop(prop)
     campaign = find_campaign(mod, camp_name)
     total = campaign.total(tier)
+    if os.environ.get("VERIF_MAX_INDEX"):
+        total = min(total, int(os.environ["VERIF_MAX_INDEX"]))
     only = os.environ.get("VERIF_ONLY_INDEX")
     agg = {"campaign": camp_name, "runs": 0, "invocations": 0, "counters": {}, "faults": {}, "probes": {},
            "states": set(), "transitions": set(), "nontrivial": set(), "violations": [], "samples": [],
@@ -499,9 +501,10 @@ def check_main(prop, tier, seed, nworkers=None):
         "wall_s": round(wall, 2),
         "violations": len(fresh),
     }
-    os.makedirs(os.path.join(HERE, "evidence"), exist_ok=True)
-    with open(os.path.join(HERE, "evidence", "%s.json" % prop), "w") as fobj:
-        json.dump(evidence, fobj, indent=1, sort_keys=True)
+    if not os.environ.get("VERIF_NO_EVIDENCE"):   # (sensitivity self-test runs against mutated copies: no evidence)
+        os.makedirs(os.path.join(HERE, "evidence"), exist_ok=True)
+        with open(os.path.join(HERE, "evidence", "%s.json" % prop), "w") as fobj:
+            json.dump(evidence, fobj, indent=1, sort_keys=True)
 
     print("%s %s seed=%d: %d runs, %d invocations, %d distinct non-trivial, %.1fs%s" % (
         prop, tier, seed, total["runs"], total["invocations"], len(total["nontrivial"]), wall,
